@@ -7,7 +7,7 @@
     [repr g t c]: term [t] evaluates, bottom-up through rows of [g] that are present, not subsumed
     and of extractable constructors, into class [c].  [tree_cost]: cost of the term as a tree
     under the :cost annotations with u64 saturating addition (base values cost 1). *)
-From Coq Require Import List Arith NArith ZArith PeanoNat.
+From Coq Require Import List Arith NArith ZArith PeanoNat Bool.
 Import ListNotations.
 Require Import Verif.Base.Res Verif.Extract.Model Verif.Extract.Proofs.
 
@@ -105,6 +105,67 @@ Theorem c07_check_case_link : forall g roots vars, check_case (g, roots, vars) =
       vobs_matches (extract_variants (case_fuel g) g root k) o = true).
 Proof. exact check_case_uses_extract. Qed.
 Print Assumptions c07_check_case_link.
+
+(** ---- Tier A (gen/ExtractFns.v, regenerated from src/extract.rs on every run) ----
+    The model's arithmetic is the regenerated one ([c07_model_uses_regenerated]); the statements
+    below pin what the regenerated functions must be for the theorems above to mean what the
+    property says ([tree_cost] is written with an explicit saturating u64 sum). *)
+
+(** `Cost::combine` for u64 is the saturating sum (not wrapping, not unbounded). *)
+Theorem c07_src_combine_saturating : forall a b, cost_combine a b = N.min (a + b) MAXC.
+Proof. exact src_combine_saturating. Qed.
+Print Assumptions c07_src_combine_saturating.
+
+(** `TreeAdditiveCostModel::fold` = head cost plus the children costs (saturating). *)
+Theorem c07_src_fold_head_plus_children : forall cs h,
+  tac_fold cs h = fold_left (fun s c => N.min (s + c) MAXC) cs h.
+Proof. exact src_fold_head_plus_children. Qed.
+Print Assumptions c07_src_fold_head_plus_children.
+
+(** default `CostModel::container_cost` = saturating sum of the elements, from 0. *)
+Theorem c07_src_container_cost_sum : forall cs,
+  container_cost_default cs = fold_left (fun s c => N.min (s + c) MAXC) cs 0%N.
+Proof. exact src_container_cost_sum. Qed.
+Print Assumptions c07_src_container_cost_sum.
+
+(** the relaxation test of `bellman_ford`: a class without cost always takes the new cost; a
+    class with a cost only a STRICTLY smaller one. *)
+Theorem c07_src_relax_strict : relax_vacant_updates = true /\ forall n o, relax_improves n o = true <-> (n < o)%N.
+Proof. exact src_relax_strict. Qed.
+Print Assumptions c07_src_relax_strict.
+
+(** `save_best_parent_edge`: the row's cost equals the class's cost, the children's max rank is
+    STRICTLY below the class's rank, the first such row wins. *)
+Theorem c07_src_parent_tests :
+  (forall best oc, parent_cost_matches best oc = true <-> oc = Some best) /\
+  (forall t e, rank_guard t e = true <-> e < t) /\ parent_first_wins = true.
+Proof. exact src_parent_tests. Qed.
+Print Assumptions c07_src_parent_tests.
+
+(** `compute_topo_rnk_*`: max over the children starting from 0, primitives rank 0; base values
+    cost 1 and the identity of the cost monoid is 0. *)
+Theorem c07_src_rank_and_units :
+  (rank_init = 0 /\ rank_prim = 0 /\ forall a b, rank_combine a b = Nat.max a b) /\
+  (base_value_cost_default = 1%N /\ cost_identity = 0%N).
+Proof. exact (conj src_rank src_base_value_cost). Qed.
+Print Assumptions c07_src_rank_and_units.
+
+(** the model's row cost, update test and parent-edge test are the regenerated functions. *)
+Theorem c07_model_uses_regenerated :
+  (forall g s r, row_cost g s r =
+     match children_costs s (r_args r) with
+     | Some cs => Some (tac_fold cs (fn_cost g (r_fn r))) | None => None end) /\
+  (forall s z, child_cost s (CPrim z) = Some base_value_cost_default) /\
+  (forall g b r nc oc k, allowed g r = true -> row_cost g (b_cs b) r = Some nc ->
+     b_cs b (r_cls r) = Some (oc, k) ->
+     relax_row g b r = if relax_improves nc oc
+                       then mkBF (cs_set (b_cs b) (r_cls r) (nc, S (b_cnt b))) (S (b_cnt b)) true
+                       else b) /\
+  (forall g s c r best rk mr, allowed g r = true -> r_cls r = c -> s c = Some (best, rk) ->
+     max_rank s rank_init (r_args r) = Some mr ->
+     is_parent g s c r = parent_cost_matches best (row_cost g s r) && rank_guard rk mr).
+Proof. exact model_uses_regenerated. Qed.
+Print Assumptions c07_model_uses_regenerated.
 
 (** non-vacuity: a cyclic e-graph with a zero-cost constructor, a tie, a subsumed row and an
     unextractable constructor.  Classes: 0 = {A, G(1)}, 1 = {F(0), B (subsumed), H(0) (unextr.)},
